@@ -68,4 +68,28 @@ theorem c10_tickRcv_keeps_snd (now : Nat) (ks : List Nat) (s : St) (nw : Nat) (o
     unfold tickRcv
     crack
 
+/-- PEER ABORT RELEASES PROMPTLY: an abort from the responder while the originator waits for a CTS marks the record
+    finished, due at once, AND wakes the background thread (without the wake-up the pair stayed blocked until the T3
+    deadline the thread was sleeping towards — defect D25); the pass that follows deletes the record without a frame -/
+theorem c10_abort_releases (cfg : Cfg) (s : St) (now : Nat) (mid : MessageId) (dest : Nat) (data : List Nat) (b : Snd)
+    (hl : 8 ≤ data.length) (hc : Tp21.cm_control data = Const.CM21.ABORT)
+    (hg : s.snd.get? (Tp21.buffer_hash dest mid.source_address) = some b) (hs : b.state = S_WAITING_CTS) :
+    Out.wake ∈ (processCm cfg s now mid dest data).outs ∧
+    (processCm cfg s now mid dest data).st.snd.get? (Tp21.buffer_hash dest mid.source_address)
+      = some { b with state := S_FINISHED, deadline := now } ∧
+    (∀ now', now ≤ now' → 0 < now → tickSndOne cfg now' { b with state := S_FINISHED, deadline := now } = (none, [], none, none)) := by
+  have hl' : ¬ data.length < 8 := by omega
+  refine ⟨?_, ?_, ?_⟩
+  · unfold processCm
+    simp only [hl', if_false, hc, hg, hs]
+    simp
+  · unfold processCm
+    simp only [hl', if_false, hc, hg, hs]
+    simp [PyDict.get?_set_self]
+  · intro now' h1 h0
+    unfold tickSndOne
+    have : ¬ now > now' := by omega
+    have h0' : now ≠ 0 := by omega
+    simp [this, h0', S_FINISHED, S_WAITING_CTS, S_SENDING_IN_CTS, S_SENDING_BM]
+
 end J1939.Props.C10
